@@ -99,8 +99,16 @@ def centers(sc, fit):
     out = []
     for i in range(len(sc.frame.big_edges_list)):
         be = sc.frame.big_edges[i]
-        xc, yc = impl.quiet(ve.calculate_circle_center, be.vertices, method=fit)
-        out.append((float(xc), float(yc)))
+        try:
+            xc, yc = impl.quiet(ve.calculate_circle_center, be.vertices, method=fit)
+            xc, yc = float(xc), float(yc)
+        except FloatingPointError:
+            xc, yc = float("inf"), float("inf")
+        if not (math.isfinite(xc) and math.isfinite(yc)):
+            # exactly collinear points: the fit has no finite centre.  Such an interface is never evaluated by the code
+            # for a used junction (it would raise); a placeholder keeps the request well-formed.
+            xc, yc = 0.0, 0.0
+        out.append((xc, yc))
     return out
 
 
